@@ -4,7 +4,7 @@
    set_time_and_dt_from_exported_steps); proofs: PP.Proofs.C38.
    A grid is the list of its cells' types; [total grids] is the number of cells of all
    grids of the dimension. *)
-From Coq Require Import List ZArith Bool Arith Lia Permutation.
+From Coq Require Import List ZArith Bool Arith Lia Permutation Sorted.
 Import ListNotations.
 From PP Require Import Model.C38 Proofs.C38.
 
@@ -29,28 +29,49 @@ Theorem C38_roundtrip :
 Proof. exact roundtrip_id. Qed.
 Print Assumptions C38_roundtrip.
 
+(* 3-D grids exported as polyhedral blocks (as repaired in /repo d6f81ecfd): the blocks are
+   written in non-decreasing order of the nodes per cell (what meshio's reader assumes), the
+   ids are still a permutation, and the round trip is the identity. *)
+Theorem C38_poly3d_blocks_sorted :
+  forall grids : list (list Z),
+    StronglySorted Z.le (map fst (sort_blocks (cell_blocks [] grids 0))) /\
+    Permutation (concat (cell_ids_3d grids)) (seq 0 (total grids)).
+Proof. exact poly3d_sorted_perm. Qed.
+Print Assumptions C38_poly3d_blocks_sorted.
+
+Theorem C38_roundtrip_poly3d :
+  forall (A : Type) (d : A) (garbage : list A) (grids : list (list Z))
+         (per_entity : list (list A)),
+    length (concat per_entity) = total grids ->
+    length garbage = total grids ->
+    roundtrip_3d A d garbage grids per_entity = per_entity.
+Proof. exact roundtrip_3d_id. Qed.
+Print Assumptions C38_roundtrip_poly3d.
+
 (* The restart entry read from a pvd file is the one with the numerically largest timestep
-   attribute (whatever was passed as write_pvd(times=...): physical times, in units of
-   1/unit; by default the step indices), the files imported are exactly the files LISTED
-   with that timestep, and the returned index is int(float(timestep)). *)
+   attribute (whatever was passed as write_pvd(times=...): physical times; by default the
+   step indices), the files imported are exactly the files LISTED with that timestep, and
+   the time index returned is the numeric suffix of the first of them. *)
 Theorem C38_pvd_latest :
-  forall (F : Type) (unit : Z) (entries : list (Z * F)),
+  forall (F : Type) (suffix : F -> Z) (entries : list (Z * F)),
     entries <> [] ->
     exists m,
-      restart_files unit entries
-      = Some (Z.quot m unit, map snd (filter (fun e => Z.eqb (fst e) m) entries)) /\
+      restart_files suffix entries
+      = Some (first_suffix suffix (map snd (filter (fun e => Z.eqb (fst e) m) entries)),
+              map snd (filter (fun e => Z.eqb (fst e) m) entries)) /\
       In m (map fst entries) /\ Forall (fun e => (fst e <= m)%Z) entries.
 Proof. exact @restart_latest. Qed.
 Print Assumptions C38_pvd_latest.
 
 (* Whenever the most recent export was written at a time larger than all earlier ones, the
-   files imported are exactly the files of that most recent export — for ANY times
-   (non-integer, larger than the number of steps, equal to another step's index). *)
+   files imported are exactly the files of that most recent export and the index returned
+   is its time-step index (the files' suffix) — for ANY times (non-integer, larger than the
+   number of steps, equal to another step's index). *)
 Theorem C38_pvd_most_recent :
-  forall (F : Type) (unit : Z) (older : list (Z * F)) (t : Z) (last : list F),
-    last <> [] ->
+  forall (F : Type) (suffix : F -> Z) (older : list (Z * F)) (t : Z) (f : F) (last : list F),
     Forall (fun e => (fst e < t)%Z) older ->
-    exists i, restart_files unit (older ++ map (fun f => (t, f)) last) = Some (i, last).
+    restart_files suffix (older ++ map (fun g => (t, g)) (f :: last))
+    = Some (suffix f, f :: last).
 Proof. exact @restart_most_recent. Qed.
 Print Assumptions C38_pvd_most_recent.
 
@@ -102,7 +123,9 @@ Proof. repeat split; vm_compute; reflexivity. Qed.
 (* one grid mixing a triangle between two quads and a pentagon *)
 Example C38_nonvacuous_mixed_grid :
   cell_ids [[4; 3; 5; 4]; [3]]%Z = [[1; 4]; [0; 3]; [2]] /\
-  restart_files 1%Z [(8, 0); (9, 1); (10, 2); (10, 3)]%Z = Some (10, [2; 3])%Z /\
-  (* steps 0..3 written at times 0, 0.5, 1.0, 1.5 (unit 1/2): the files of step 3 *)
-  restart_files 2%Z [(0, 0); (1, 1); (2, 2); (3, 3)]%Z = Some (1, [3])%Z.
+  (* hex, tet, hex in 3-D: first-seen order would be (8-node, 4-node) *)
+  cell_ids_3d [[8; 8]; [4; 4; 4]; [8]]%Z = [[2; 3; 4]; [0; 1; 5]] /\
+  restart_files (fun f : Z => f) [(8, 8); (9, 9); (10, 10); (10, 10)]%Z = Some (10, [10; 10])%Z /\
+  (* steps 0..3 written at times 0, 0.5, 1.0, 1.5 (unit 1/2): the files of step 3, index 3 *)
+  restart_files (fun f : Z => f) [(0, 0); (1, 1); (2, 2); (3, 3)]%Z = Some (3, [3])%Z.
 Proof. repeat split; vm_compute; reflexivity. Qed.
